@@ -9,7 +9,7 @@ constructors of /repo's synphot, the Lean driver through Synphot.Driver.Objects.
 import math
 from fractions import Fraction as F
 
-import numpy as np
+from .core import NP as np
 
 from .core import q, qs, unq
 
